@@ -22,6 +22,7 @@ type c09Act struct {
 	SeqRef string `json:"s,omitempty"` // zero, neg, one, stale, cur, last, lastp1, huge
 	Mode   string `json:"m,omitempty"`
 	Target int    `json:"u,omitempty"`
+	Fail   bool   `json:"fail,omitempty"` // pub: the store call that marks the message read by its sender fails
 }
 
 type c09Prog struct {
@@ -45,6 +46,13 @@ func genC09(rt *rapid.T) c09Prog {
 			Target: rapid.IntRange(0, 3).Draw(rt, "target"),
 		}
 		p.Acts = append(p.Acts, a)
+	}
+	if rapid.IntRange(0, 2).Draw(rt, "faults") == 0 {
+		for i := range p.Acts {
+			if p.Acts[i].Kind == "pub" {
+				p.Acts[i].Fail = rapid.Bool().Draw(rt, "fail")
+			}
+		}
 	}
 	return p
 }
@@ -334,10 +342,29 @@ func runC09(t *testing.T, sched simrt.Schedule, prog c09Prog) ([]Violation, RunS
 					pud := ts.PerUser[p.C.User.Uid]
 					reader = pud.Want&pud.Given&types.ModeRead != 0
 				}
-				if reader && model[tname] != nil && model[tname][p.C.User.Uid] != nil {
+				failed := simStore.Fault != nil && simStore.Fault.Fired
+				if failed {
+					simrt.Probe("fault.store_err")
+				}
+				if reader && !failed && model[tname] != nil && model[tname][p.C.User.Uid] != nil {
 					*model[tname][p.C.User.Uid] = c09Marks{seq, seq}
 				}
+				// the author's marks, cached and stored, are where the model says (moved for a reader whose
+				// read-by-sender write went through, untouched otherwise)
+				if mm := model[tname][p.C.User.Uid]; mm != nil {
+					if ts := post.Topics[tname]; ts != nil {
+						if pud, ok := ts.PerUser[p.C.User.Uid]; ok && !pud.Deleted && (pud.ReadID != mm.Read || pud.RecvID != mm.Recv) {
+							out = append(out, vio("C09", "marks-cache after-publish", "after publish seq=%d by user %d on %s (reader=%v, read-by-sender write failed=%v): cached read=%d recv=%d, model read=%d recv=%d", seq, p.C.User.Idx, tname, reader, failed, pud.ReadID, pud.RecvID, mm.Read, mm.Recv))
+						}
+					}
+					if sr := w.Disk.Subs[simdbSubKey(tname, p.C.User.Uid)]; sr != nil && sr.DeletedAt == nil && storeLag[tname+"/"+p.C.User.Uid.String()] == 0 {
+						if _, lag := storeLag[tname+"/"+p.C.User.Uid.String()]; !lag && (sr.ReadSeqId != mm.Read || sr.RecvSeqId != mm.Recv) {
+							out = append(out, vio("C09", "marks-store after-publish", "after publish seq=%d by user %d on %s (reader=%v, write failed=%v): stored read=%d recv=%d, model read=%d recv=%d", seq, p.C.User.Idx, tname, reader, failed, sr.ReadSeqId, sr.RecvSeqId, mm.Read, mm.Recv))
+						}
+					}
+				}
 			}
+			simStore.Fault = nil
 			e, _ := p.Exp.(*c09Exp)
 			if e != nil {
 				kinds[e.What] = true
@@ -471,6 +498,10 @@ func runC09(t *testing.T, sched simrt.Schedule, prog c09Prog) ([]Violation, RunS
 			case "pub":
 				tagN++
 				op = opPub(name, fmt.Sprintf("m%d", tagN), false)
+				if a.Fail {
+					simStore.Fault = &faultPlan{FailAt: 1, FailMethod: "SubsUpdate"}
+					simrt.Probe("fault.store_armed")
+				}
 			case "leave":
 				op = opLeave(name, false)
 			case "sub":
